@@ -675,6 +675,79 @@ func ruleReloadMigration(c *Ctx) {
 	}
 }
 
+// ruleConfigRMWNoWait: a section of the served configuration that is read,
+// edited and installed again (Get…Config().Clone() … Set…Config(v)) replaces
+// whatever was accepted in between. The window is kept to straight-line code:
+// no path from the read to the install waits on a channel, a select without
+// default, a sleep or a wait group — a waiting writer would put back a snapshot
+// from before the wait and persist it over accepted updates.
+func ruleConfigRMWNoWait(c *Ctx) {
+	P := c.P
+	rule := c.Prop + "/rmw-no-wait"
+	isWait := func(x ssa.Instruction) bool {
+		switch t := x.(type) {
+		case *ssa.Select:
+			return t.Blocking
+		case *ssa.UnOp:
+			return t.Op == token.ARROW
+		case *ssa.Call:
+			if f := t.Call.StaticCallee(); f != nil && f.Pkg != nil {
+				switch f.Pkg.Pkg.Path() + "." + f.Name() {
+				case "time.Sleep", "sync.Wait":
+					return true
+				}
+			}
+		}
+		return false
+	}
+	n := 0
+	for _, fn := range P.Funcs {
+		if P.isScaffold(fn) {
+			continue
+		}
+		k := 0
+		for _, b := range fn.Blocks {
+			for _, ins := range b.Instrs {
+				cl, ok := ins.(*ssa.Call)
+				if !ok {
+					continue
+				}
+				f := cl.Call.StaticCallee()
+				if f == nil || fnPkgPath(f) != modPath+"/server/config" || f.Signature.Recv() == nil || !strings.HasPrefix(f.Name(), "Set") || !strings.HasSuffix(f.Name(), "Config") {
+					continue
+				}
+				rn := namedOf(f.Signature.Recv().Type())
+				if rn == nil || rn.Obj().Name() != "PersistOptions" {
+					continue
+				}
+				a := callArgs(&cl.Call)
+				if len(a) != 1 {
+					continue
+				}
+				getter := "Get" + strings.TrimPrefix(f.Name(), "Set")
+				isGet := func(x ssa.Instruction) bool {
+					g, ok := x.(*ssa.Call)
+					return ok && g.Parent() == fn && g.Call.StaticCallee() != nil && g.Call.StaticCallee().Name() == getter && fnPkgPath(g.Call.StaticCallee()) == modPath+"/server/config"
+				}
+				if !derivesFrom(a[0], func(v ssa.Value) bool { x, ok := v.(ssa.Instruction); return ok && isGet(x) }, 8) {
+					continue
+				}
+				k++
+				n++
+				target := cl
+				waited := &calledEv{name: "waited since the section was read", match: isWait, reset: isGet}
+				_, fails := requireAt(P, fn, 0, []Ev{waited}, func(x ssa.Instruction) bool { return x == ssa.Instruction(target) }, func(h []bool) bool { return !h[0] })
+				c.saw(fnName(fn))
+				c.Check(len(fails) == 0, rule, fmt.Sprintf("%s of an edited copy #%d in %s", f.Name(), k, fnName(fn)),
+					"no wait (channel receive, blocking select, sleep) between reading the section and installing the edited copy", P.instrPos(cl), failDesc(fails))
+			}
+		}
+	}
+	if n < 3 {
+		c.Undec(rule, "read-edit-install sites of served configuration sections", "at least 3", "", fmt.Sprint(n))
+	}
+}
+
 func init() {
 	register("C18", "Dynamic configuration changes are validated, atomic and durable", func(c *Ctx) {
 		c.Group("C18/validated-first", "each setter validates its parameter before it changes the served options", func() { ruleValidatedBeforePublished(c) })
@@ -682,6 +755,8 @@ func init() {
 		c.Group("C18/snapshot-rollback", "every function that mutates the served options, persists and returns the error restores each mutated section from a snapshot taken before the first mutation", func() { ruleSnapshotRollback(c) })
 		c.Group("C18/served-config-not-shared", "configuration objects handed to API code are clones", func() { ruleServedConfigNotShared(c) })
 		c.Group("C18/reload-identity", "the reload-time migration of deprecated flags leaves values written by this version unchanged", func() { ruleReloadMigration(c) })
+		c.Group("C18/memo-after-outcome", "(shared with C17) the storage layer remembers nothing about a config write whose outcome is still open: a cached copy of the stored value is updated only after the write succeeded", func() { ruleStorageMemoAfterOutcome(c) })
+		c.Group("C18/rmw-no-wait", "a section that is read, edited and installed again is not held across a wait", func() { ruleConfigRMWNoWait(c) })
 		c.Group("C18/one-json-value", "one key, one JSON value containing every section; reload installs every section of an existing value", func() { ruleOneConfigValue(c) })
 	})
 }
